@@ -285,7 +285,7 @@ func (p *c07) Init(tier string, seed int64) {
 	p.nRand = p.pick(30000, 400000)
 }
 
-func (p *c07) N() int { return p.nRand + c07Rec + c07Child }
+func (p *c07) N() int { return p.nRand + c07Rec + c07Child + len(c07Special) }
 
 // c07Child: assignments at the top level of a template that extends a layout. They are template-level
 // assignments like any other: visible to everything rendered afterwards - the child's own blocks and the layout
@@ -345,6 +345,48 @@ func c07ChildCase(j int) (*Program, string) {
 // the inner call has ended.
 const c07Rec = 30
 
+// c07Special: the names the executor binds itself (loop) used as ordinary names - a macro parameter, a variable set
+// before, inside and after a loop - and assignments made while a block is rendered for its value.
+var c07Special = []func() []gen.Node{
+	func() []gen.Node { // a parameter named loop shadows the loop's own variable, at any loop depth, and only inside the call
+		m := &gen.NMacro{Name: "m", Params: []string{"loop", "b"}, Body: []gen.Node{tx("[m:"), pr(nm("loop")), tx(","), pr(nm("b")),
+			&gen.NFor{Val: "q", Seq: &gen.EArr{Els: []gen.Expr{num(7), num(8)}}, Body: []gen.Node{tx("<"), pr(attr(nm("loop"), "index")), tx(">")}}, tx(","), pr(nm("loop")), tx("]")}}
+		call := func(a string) gen.Node {
+			return pr(&gen.EMethod{X: nm("_self"), Name: "m", Args: []gen.Expr{str(a), str("B")}})
+		}
+		inner := &gen.NFor{Val: "j", Seq: &gen.EArr{Els: []gen.Expr{num(1), num(2)}}, Body: []gen.Node{pr(attr(nm("loop"), "index")), call("in"), pr(attr(nm("loop"), "index")), pr(attr(attr(nm("loop"), "parent"), "index")), tx(";")}}
+		return []gen.Node{m, call("before"), &gen.NFor{Val: "i", Seq: &gen.EArr{Els: []gen.Expr{num(1), num(2), num(3)}}, Body: []gen.Node{pr(attr(nm("loop"), "index")), call("out"), pr(attr(nm("loop"), "index")), tx(":"), inner, tx("/")}}, call("after"),
+			pr(&gen.EMethod{X: nm("_self"), Name: "m"}), c07Probe("end")}
+	},
+	func() []gen.Node { // ... also when the macro comes from another template, and when the argument is null
+		call := func(a gen.Expr) gen.Node { return pr(&gen.EMethod{X: nm("L"), Name: "lm", Args: []gen.Expr{a}}) }
+		return []gen.Node{&gen.NImport{Tpl: str("lib"), Alias: "L"}, &gen.NFor{Val: "i", Seq: &gen.EArr{Els: []gen.Expr{num(1), num(2)}}, Body: []gen.Node{call(str("x")), call(&gen.ENull{}), pr(&gen.EMethod{X: nm("L"), Name: "lm"}), pr(attr(nm("loop"), "index")), tx(";")}}, call(str("y"))}
+	},
+	func() []gen.Node { // a variable named loop set before a loop is back after it, and a set inside the body is gone with the body
+		return []gen.Node{&gen.NSet{Name: "loop", X: str("mine")}, pr(nm("loop")), tx("|"), &gen.NFor{Val: "i", Seq: &gen.EArr{Els: []gen.Expr{num(1), num(2)}}, Body: []gen.Node{pr(attr(nm("loop"), "index")), tx(",")}}, tx("|"), pr(nm("loop")),
+			&gen.NFor{Val: "i", Seq: &gen.EArr{}, Body: []gen.Node{tx("never")}, HasElse: true, Else: []gen.Node{tx("(else:"), pr(nm("loop")), tx(")")}}, c07Probe("end")}
+	},
+	func() []gen.Node { // the else branch of a loop is no loop body: what it sets (or captures) is set where the loop stands
+		empty := func(n string, els ...gen.Node) gen.Node {
+			return &gen.NFor{Val: "i", Seq: &gen.EArr{}, Body: []gen.Node{tx("never")}, HasElse: true, Else: els}
+		}
+		return []gen.Node{&gen.NSet{Name: "old", X: str("o")}, empty("a", &gen.NSet{Name: "fresh", X: str("f")}, &gen.NSet{Name: "old", X: str("o2")}, &gen.NSetCap{Name: "cap", Body: []gen.Node{tx("c"), pr(nm("fresh"))}}, c07Probe("else")),
+			tx("|"), pr(nm("fresh")), pr(nm("old")), pr(nm("cap")), c07Probe("after"),
+			&gen.NFor{Val: "o", Seq: &gen.EArr{Els: []gen.Expr{num(1), num(2)}}, Body: []gen.Node{empty("b", &gen.NSet{Name: "inner", X: nm("o")}), pr(nm("inner")), tx(",")}}, tx("|"), pr(nm("inner")), c07Probe("end")}
+	},
+	func() []gen.Node { // assignments inside if and for bodies reach the outer variable also while a block is rendered for its value
+		blk := &gen.NBlock{Name: "b", Body: []gen.Node{tx("(b:"), &gen.NIf{Conds: []gen.Expr{&gen.EBool{V: true}}, Bodies: [][]gen.Node{{&gen.NSet{Name: "n", X: &gen.EBin{Op: "+", L: nm("n"), R: num(1)}}}}},
+			&gen.NFor{Val: "i", Seq: &gen.EArr{Els: []gen.Expr{num(1), num(2)}}, Body: []gen.Node{&gen.NSet{Name: "t", X: &gen.EBin{Op: "+", L: nm("t"), R: nm("i")}}, &gen.NSet{Name: "fresh", X: num(1)}}}, pr(nm("n")), tx(","), pr(nm("t")), tx(")")}}
+		return []gen.Node{&gen.NSet{Name: "n", X: num(0)}, &gen.NSet{Name: "t", X: num(0)}, blk, tx("|"), pr(&gen.EBlockFn{Name: str("b")}), tx("|"), &gen.NSet{Name: "v", X: &gen.EBlockFn{Name: str("b")}}, pr(nm("v")), tx("|n="), pr(nm("n")), tx(",t="), pr(nm("t")), tx(",fresh="), pr(nm("fresh")), c07Probe("end")}
+	},
+}
+
+func c07SpecialCase(j int) (*Program, string) {
+	ts := map[string]*gen.Template{"main": tpl("main", c07Special[j]()...),
+		"lib": tpl("lib", &gen.NMacro{Name: "lm", Params: []string{"loop"}, Body: []gen.Node{tx("[lm:"), pr(nm("loop")), tx("]")}})}
+	return &Program{Templates: ts, Main: "main", Ctx: map[string]interface{}{}}, fmt.Sprintf("special/%d", j)
+}
+
 func (p *c07) build(i int) (*Program, *c07gen) {
 	r := gen.Rng(p.seed, "c07", i)
 	g := &c07gen{r: r, defined: map[string]bool{}, shadow: map[string]bool{}}
@@ -374,6 +416,12 @@ func (p *c07) build(i int) (*Program, *c07gen) {
 }
 
 func (p *c07) Describe(i int) interface{} {
+	if i >= p.nRand+c07Rec+c07Child {
+		prog, sig := c07SpecialCase(i - p.nRand - c07Rec - c07Child)
+		d := prog.describe()
+		d["case"] = sig
+		return d
+	}
 	if i >= p.nRand+c07Rec {
 		prog, sig := c07ChildCase(i - p.nRand - c07Rec)
 		d := prog.describe()
@@ -393,6 +441,15 @@ func (p *c07) Describe(i int) interface{} {
 }
 
 func (p *c07) Run(i int) (res fw.Result) {
+	if i >= p.nRand+c07Rec+c07Child {
+		prog, sig := c07SpecialCase(i - p.nRand - c07Rec - c07Child)
+		if _, _, ok := modelCase(&res, "c07:"+sig, prog, gen.Canon{}, false); !ok {
+			res.Fail("harness", "c07:oor:"+sig, "case left the model's region", prog.describe())
+		}
+		res.AddClass("special-names")
+		res.UniqueNT = 1
+		return
+	}
 	if i >= p.nRand+c07Rec {
 		prog, sig := c07ChildCase(i - p.nRand - c07Rec)
 		modelCase(&res, "c07:"+sig, prog, gen.Canon{}, false)
